@@ -20,7 +20,7 @@ REPO = os.environ.get("VERIF_REPO", "/repo")
 LEAN_DIR = os.path.join(VERIF, "lean")
 BUILD = os.path.join(VERIF, "build")
 OBJ_CACHE = os.path.join(BUILD, "obj")
-EVIDENCE = os.path.join(VERIF, "evidence")
+EVIDENCE = os.environ.get("VERIF_EVIDENCE_DIR", os.path.join(VERIF, "evidence"))  # overridden by tools/try_seed.py only
 REPLAYS = os.path.join(VERIF, "replays")
 CORPUS = os.path.join(VERIF, "corpus")
 NCPU = max(1, min(16, os.cpu_count() or 1))
